@@ -253,10 +253,59 @@ let ops_c10 = [
      | Fail -> "DEADLOCK" | Oof -> "OOF");
 ]
 
+(* ---------------- C16 / C17: the evaluator model ---------------- *)
+let tokenize_expr (s : string) : string list =
+  let b = Buffer.create (String.length s + 16) in
+  String.iter (fun c -> match c with '[' -> Buffer.add_string b " [ " | ']' -> Buffer.add_string b " ] " | c -> Buffer.add_char b c) s;
+  List.filter (fun x -> x <> "") (String.split_on_char ' ' (Buffer.contents b))
+let unders s = String.map (fun c -> if c = '_' then ' ' else c) s
+let rec parse_expr_toks (t : string list) : expr * string list =
+  match t with
+  | "[" :: "C" :: v :: "]" :: r -> (EConst (parse_val (unders v)), r)
+  | "[" :: "V" :: n :: "]" :: r -> (EVar (nat_of_int (int_of_string n)), r)
+  | "[" :: "L" :: n :: "]" :: r -> (ELocal (nat_of_int (int_of_string n)), r)
+  | "[" :: "O" :: h :: r -> let (args, r') = parse_exprs r in (EOp (bytes_of_hex h, args), r')
+  | "[" :: "I" :: r ->
+    let (c, r1) = parse_expr_toks r in let (a, r2) = parse_expr_toks r1 in let (b, r3) = parse_expr_toks r2 in
+    (match r3 with "]" :: r4 -> (EIf (c, a, b), r4) | _ -> failwith "if")
+  | "[" :: "F" :: g :: r -> let (args, r') = parse_exprs r in (ECall (nat_of_int (int_of_string g), args), r')
+  | _ -> failwith "expr"
+and parse_exprs (t : string list) : expr list * string list =
+  match t with
+  | "]" :: r -> ([], r)
+  | _ -> let (e, r) = parse_expr_toks t in let (es, r') = parse_exprs r in (e :: es, r')
+let parse_expr s = fst (parse_expr_toks (tokenize_expr s))
+let parse_funs s = if s = "" then [] else List.map parse_expr (String.split_on_char ';' s)
+let unders_out s = String.map (fun c -> if c = ' ' then '_' else c) s
+let rec print_expr = function
+  | EConst v -> "[C " ^ unders_out (print_val v) ^ "]"
+  | EVar n -> "[V " ^ string_of_int (int_of_nat n) ^ "]"
+  | ELocal n -> "[L " ^ string_of_int (int_of_nat n) ^ "]"
+  | EOp (h, args) -> "[O " ^ hex_of_bytes h ^ String.concat "" (List.map (fun a -> " " ^ print_expr a) args) ^ "]"
+  | EIf (c, a, b) -> "[I " ^ print_expr c ^ " " ^ print_expr a ^ " " ^ print_expr b ^ "]"
+  | ECall (g, args) -> "[F " ^ string_of_int (int_of_nat g) ^ String.concat "" (List.map (fun a -> " " ^ print_expr a) args) ^ "]"
+let parse_vals s = if s = "" then [] else List.map (fun v -> parse_val (unders v)) (String.split_on_char ',' s)
+let parse_known s = if s = "" then [] else List.map (fun v -> if v = "-" then None else Some (parse_val (unders v))) (String.split_on_char ',' s)
+let ops_pe = [
+  (* pe_eval fuel funs rho body *)
+  "pe_eval", (fun f -> match seval opf_exec (parse_funs f.(2)) (fuel_of f.(1)) (parse_vals f.(3)) [] (parse_expr f.(4)) with
+     | Some v -> "OK " ^ print_val v | None -> "FAIL");
+  (* pe_shrink fuel funs known body *)
+  "pe_shrink", (fun f -> match shrink opf_exec (parse_funs f.(2)) (fuel_of f.(1)) (parse_known f.(3)) [] (parse_expr f.(4)) with
+     | Some e -> "OK " ^ print_expr e | None -> "LIMIT");
+  (* pe_unused fuel funs nparams body *)
+  "pe_unused", (fun f ->
+     let np = int_of_string f.(3) in
+     let funs = parse_funs f.(2) and body = parse_expr f.(4) and fuel = fuel_of f.(1) in
+     match shrink opf_exec funs fuel (List.init np (fun _ -> None)) [] body with
+     | None -> "LIMIT"
+     | Some r -> "OK " ^ String.concat "," (List.filter_map (fun i -> if mentions (nat_of_int i) r then None else Some (string_of_int i)) (List.init np (fun i -> i))));
+]
+
 (*OPS-INSERT*)
 
 let all_ops : (string, string array -> string) Hashtbl.t = Hashtbl.create 64
-let () = List.iter (fun l -> List.iter (fun (k, v) -> Hashtbl.replace all_ops k v) l) [ops_c20; ops_c08; ops_c07; ops_c04; ops_c06; ops_c12; ops_c10 (*OPS-LIST*)]
+let () = List.iter (fun l -> List.iter (fun (k, v) -> Hashtbl.replace all_ops k v) l) [ops_c20; ops_c08; ops_c07; ops_c04; ops_c06; ops_c12; ops_c10; ops_pe (*OPS-LIST*)]
 
 let dispatch (f : string array) : string =
   match Hashtbl.find_opt all_ops f.(0) with
